@@ -276,6 +276,21 @@ def run_ctor(bins, case):
         return classify(e)
 
 
+def run_gsfetch(bins, names, case):
+    """GenomeSegmentation.fetch (the bin rows the tabix / pairix aggregators receive for a work chunk): ids of the returned rows"""
+    from cooler.util import GenomeSegmentation, get_chromsizes
+    b = bins_variant(bins, case["opts"].get("bins_dtype"), case.get("_tmpdir", "/tmp"))
+    gs = GenomeSegmentation(get_chromsizes(b), b)
+    out = []
+    for (c, s, e) in case["regions"]:
+        try:
+            df = gs.fetch((names[c], s, e))
+            out.append([int(i) for i in df.index])
+        except Exception as ex:  # noqa: BLE001
+            out.append(classify(ex))
+    return out
+
+
 def run_pixels(bins, case):
     """-> list per chunk: 'BadInputError' | {'rows': [...], 'agg': [[b1,b2,sum]...]}"""
     from cooler.create import aggregate_records, sanitize_pixels
@@ -423,6 +438,8 @@ def run_case(tmpdir, tag, bins, blocks, names, case):
             return run_pixels(bins, case)
         if case["fn"] == "ctor":
             return run_ctor(bins, case)
+        if case["fn"] == "gs_fetch":
+            return run_gsfetch(bins, names, case)
         if case.get("opts", {}).get("nproc", 1) > 1:
             return "deferred"          # a process pool cannot be started from a pool worker: the parent runs it
         return run_cli(tmpdir, tag, blocks, names, case)
@@ -549,6 +566,9 @@ def coq_pxrec(r):
 def model_expr(case):
     if case["fn"] == "ctor":
         return "true"
+    if case["fn"] == "gs_fetch":        # C04's model of GenomeSegmentation.fetch / bedslice
+        regs = C.lst([C.tup(C.nat(c), C.z(s), C.z(e)) for (c, s, e) in case["regions"]])
+        return f"map (fun r : nat * Z * Z => let '(c, s, e) := r in segmentation_fetch blocks c (Some s) (Some e)) {regs}"
     o = case["opts"]
     ta = TRIL[o["tril"]]
     if case["fn"] == "sanitize_records":
@@ -969,6 +989,56 @@ def big_genome_cases(rng, widths, thorough):
     return cases + cli
 
 
+def split_tables(rng):
+    """chromosomes with 12-40 bins, so that `cload tabix --max-split N` really cuts each of them into N >= 3 work chunks"""
+    b = rng.choice([5, 10, 100])
+    fixed = [[b] * rng.randint(12, 40) + ([rng.randint(1, b)] if rng.random() < 0.5 else []) for _ in range(rng.choice([1, 2]))]
+    var = [[rng.randint(1, 30) for _ in range(rng.randint(12, 40))] for _ in range(rng.choice([1, 2]))]
+    return [fixed, var]
+
+
+def gen_tabix_split(rng, widths, thorough):
+    """ONE sparse record set (a record anchored in every bin, i.e. on every possible chunk boundary bin, both anchor orders before
+    flipping, some unlisted partners) loaded by `cload tabix` under --max-split 1..8 (and nproc 2): every retained record
+    must be counted exactly once whatever the split"""
+    blocks = blocks_from_widths(widths)
+    nc = len(blocks)
+    ob = rng.randint(0, 1)
+    recs = []
+    for c, blk in enumerate(blocks):
+        L = blk[-1][2]
+        for (_, bs, be) in blk:
+            if rng.random() < 0.75:
+                p1 = rng.choice([bs, be - 1, rng.randint(bs, be - 1)])
+                c2 = rng.choice([c, c, rng.randrange(nc), -1 if rng.random() < 0.2 else c])
+                p2 = rng.randint(0, blocks[c2][-1][2] - 1) if c2 >= 0 else 7
+                recs.append([c, p1 + ob, 0, c2, p2 + ob, 0])
+            if rng.random() < 0.15:
+                recs.append([c, bs + ob, 0, c, bs + ob, 0])                       # a second record in the same bin
+    recs = [r_ if (r_[3] < 0 or (r_[0], r_[1]) <= (r_[3], r_[4])) else r_[3:] + r_[:3] for r_ in recs]      # flipped = upper triangle
+    recs.sort(key=lambda r_: (r_[0], r_[1]))
+    cases = []
+    for ms in range(1, 9):
+        for nproc in ((1, 2) if (ms in (3, 6) and thorough) or ms == 4 else (1,)):
+            opts = {"one_based": ob, "tril": None, "ideal_b": widths[0][0] if is_ideal(widths) and ms % 2 else None, "header": False, "d8": False,
+                    "max_split": ms, "nproc": nproc}
+            cases.append({"fn": "cload_tabix", "widths": widths, "opts": opts, "chunks": [[list(r_) for r_ in recs]],
+                          "label": f"cli:cload_tabix:split{ms}"})
+    # the work-chunk selector itself: first / middle / last thirds of every chromosome, single bins, edges +-1
+    regions = []
+    for c, blk in enumerate(blocks):
+        n, L = len(blk), blk[-1][2]
+        t1, t2 = blk[n // 3][1], blk[2 * n // 3][1]
+        regions += [[c, 0, t1], [c, t1, t2], [c, t2, L], [c, t1, L], [c, 0, t2], [c, t1 + 1, t2 - 1], [c, max(0, t1 - 1), min(L, t2 + 1)], [c, t1, t1], [c, 0, L]]
+        for step in (2, 3, 5, 8):
+            starts = [b_[1] for b_ in blk][::step] + [L]
+            regions += [[c, a_, z_] for a_, z_ in zip(starts[:-1], starts[1:])]                 # the chunks balanced_partition would cut
+        regions += [[c, b_[1], b_[2]] for b_ in blk[:: max(1, n // 8)]]
+    cases.append({"fn": "gs_fetch", "widths": widths, "regions": regions, "opts": {"bins_dtype": rng.choice(["int64", "int32", "cooler"])},
+                  "label": "gs_fetch:thirds"})
+    return cases
+
+
 LOADERS = ["cload_tabix", "cload_pairs", "load_bg2", "sanitize_records"]      # `cload pairix` needs pypairix, which is not installed
 
 CORPUS = [
@@ -1091,7 +1161,36 @@ def agg_x_of(rows):
     return [[a, b_, c, s_] for (a, b_), (c, s_) in sorted(acc.items())]
 
 
+def judge_gsfetch(ctx, case, impl, model):
+    blocks = blocks_from_widths(case["widths"])
+    fl = [b for blk in blocks for b in blk]
+    where = {tuple(b): k for k, b in enumerate(fl)}
+    rec = {k: case[k] for k in ("fn", "widths", "regions", "opts")}
+    ctx.case(rec, nontrivial=True, kind=case.get("label", "gs_fetch"))
+    if isinstance(impl, str):
+        ctx.compare("gs_fetch", rec, impl, "a result")
+        ctx.fail(rec, {"implementation": impl}, None)
+        return
+    for (c, s, e), im, mo in zip(case["regions"], impl, model if model is not None else [None] * len(impl)):
+        one = dict(rec, regions=[[c, s, e]])
+        if model is not None:
+            mo = unopt(mo)
+            ctx.compare("gs_fetch", one, im, "ValueError" if mo is None else [where[tuple(b)] for b in mo])
+        L = blocks[c][-1][2]
+        if not (0 <= s <= e <= L):
+            continue
+        if s < e:
+            want = [k for k, (cc, bs, be) in enumerate(fl) if cc == c and bs < e and be > s]
+            ok = im == want
+        else:
+            ok = isinstance(im, list) and len(im) <= 1 and all(fl[k][0] == c and fl[k][1] <= s <= fl[k][2] for k in im)
+        if not ok:
+            ctx.fail(one, {"expected_bin_ids": want if s < e else "at most the bin containing the position", "got": im}, None)
+
+
 def judge(ctx, case, impl, model):
+    if case["fn"] == "gs_fetch":
+        return judge_gsfetch(ctx, case, impl, model)
     if case["fn"] == "ctor":
         rec = {k: case[k] for k in ("fn", "widths", "kwargs", "expect")}
         ctx.case(rec, nontrivial=False, kind="ctor")
@@ -1245,6 +1344,9 @@ def run(ctx):
         elif rng.random() < 0.5:
             cases += gen_unlisted_runs(rng, widths, [rng.choice(LOADERS)])
         per_table.setdefault(canon_w(widths), [widths, []])[1].extend(cases)
+    for rep in range(3 if thorough else 1):
+        for widths in split_tables(rng):
+            per_table.setdefault(canon_w(widths), [widths, []])[1].extend(gen_tabix_split(rng, widths, thorough))
     for widths in big_genome_tables(rng, 27 if thorough else 9):
         per_table.setdefault(canon_w(widths), [widths, []])[1].extend(big_genome_cases(rng, widths, thorough))
     for case in D2_CASES + D27_CASES + REPR_CASES + AUDIT_CASES + CLI_CORPUS:
